@@ -8,10 +8,16 @@
   bound to no namespace at the outset, `xml` to the XML namespace throughout).
   Kept by `push` of the declarations of a `nodeOK` element; then the prefix `element_prefix` /
   `attribute_prefix` chooses resolves, in the string scope, to the URI of the name's namespace
-  (via `C10_sound_prefix`, `C10_sound_attribute`).
+  (via `sound_prefix`, `sound_attribute` of Lemmas/Scope10Sound.lean = C10_sound_prefix, C10_sound_attribute).
 -/
 import XotModel.Lemmas.RoundTripEnv
-import XotModel.Props.C10
+import XotModel.Lemmas.Scope10Sound
+import XotModel.Lemmas.TraceInv
+import XotModel.Lemmas.RepairDoc
+import XotModel.Lemmas.RepairFuel
+import XotModel.Lemmas.RepairKeepTop
+import XotModel.Lemmas.RepairValid
+import XotModel.Lemmas.SerResolveTop
 
 namespace XotModel
 open XotModel.Props
@@ -220,7 +226,7 @@ theorem ScopeRel.element (he : EnvFacts env) {s : FStack} {fs : Frames} {sc : Sc
     (hcheck : ¬ (env.nsOfName name = Env.noNamespace ∧ s.hasDefaultNamespace = true)) :
     sc.lookup (prefixText env p) = some (env.namespaceStr (env.nsOfName name)) ∧
       env.nsOfName name < env.namespaces.length := by
-  have hres := C10_sound_prefix env s fs name p h.inv h.reserved hp hcheck
+  have hres := sound_prefix env s fs name p h.inv h.reserved hp hcheck
   cases p with
   | none =>
     simp only [resolveElementName, Option.some.injEq] at hres
@@ -244,7 +250,7 @@ theorem ScopeRel.attribute (he : EnvFacts env) {s : FStack} {fs : Frames} {sc : 
       (prefixText env p = [] → env.nsOfName name = Env.noNamespace) ∧
       (prefixText env p = ['x', 'm', 'l'] → env.nsOfName name = Env.xmlNamespace) ∧
       env.nsOfName name < env.namespaces.length := by
-  obtain ⟨hres, hne⟩ := C10_sound_attribute env s fs name p h.inv h.reserved hp
+  obtain ⟨hres, hne⟩ := sound_attribute env s fs name p h.inv h.reserved hp
   cases p with
   | none =>
     simp only [resolveAttributeName, Option.some.injEq] at hres
